@@ -215,6 +215,40 @@ def main():
                         or any(not str(sj).startswith(sm + ".") for sj in subjects)):
                     ck.violation("the notifications of an execution do not all carry the execution ARN and state machine ARN it was started with: %s" % json.dumps(d)[:900], {"group": "identifiers", "case": d})
     ck.add_group("identifiers_end_to_end", ident, ident, [])
+    # ------------------------------------------------------------------ G3c: every execution is listed and described under the state machine that runs it, and no other
+    # (machine names that are prefixes of one another, or differ only in a character that is not a word character)
+    owned = 0
+    for kind in ("aio", "blk"):
+        names = ["orders", "orders-eu", "orders.eu", "order", "orders-eu-2"]
+        w = sim.World(tmpd)
+        for mname in names:
+            w.register("arn:aws:states:local:0123456789:stateMachine:" + mname, {"StartAt": "P", "States": {"P": {"Type": "Pass", "End": True}}})
+        inst = w.instances["i1"]
+        api = impl.Api(inst.engine, inst.dispatcher, inst.config, kind=kind)
+        started = {}
+        for i, mname in enumerate(names):
+            sm = "arn:aws:states:local:0123456789:stateMachine:" + mname
+            for e in ["run-1", "run.%d" % i][: 1 + i % 2]:
+                st, body = api.post("StartExecution", {"stateMachineArn": sm, "name": e, "input": "{}"})
+                if st == 200:
+                    started.setdefault(sm, set()).add(body["executionArn"])
+        w.run(max_steps=400)
+        for mname in names:
+            sm = "arn:aws:states:local:0123456789:stateMachine:" + mname
+            st, body = api.post("ListExecutions", {"stateMachineArn": sm})
+            listed = {e["executionArn"]: e.get("stateMachineArn") for e in body.get("executions", [])} if st == 200 and isinstance(body, dict) else None
+            owned += 1
+            d = {"front_end": kind, "state_machine": sm, "started": sorted(started.get(sm, ())), "ListExecutions": [st, listed]}
+            if listed is None or set(listed) != started.get(sm, set()) or any(v != sm for v in listed.values()):
+                ck.violation("ListExecutions attributes executions to a state machine that does not run them (or misses its own): %s" % json.dumps(d)[:900], {"group": "ownership", "case": d})
+            for xa in sorted(started.get(sm, ())):
+                st2, b2 = api.post("DescribeExecution", {"executionArn": xa})
+                st3, b3 = api.post("DescribeStateMachineForExecution", {"executionArn": xa})
+                if st2 != 200 or b2.get("stateMachineArn") != sm or st3 != 200 or b3.get("stateMachineArn") != sm:
+                    d2 = dict(d, execution=xa, DescribeExecution=[st2, b2 if st2 != 200 else b2.get("stateMachineArn")], DescribeStateMachineForExecution=[st3, b3 if st3 != 200 else b3.get("stateMachineArn")])
+                    ck.violation("an execution is not described under the state machine that runs it: %s" % json.dumps(d2)[:900], {"group": "ownership", "case": d2})
+        api.close()
+    ck.add_group("ownership_through_the_api", owned, owned, [])
     import shutil
     shutil.rmtree(tmpd, ignore_errors=True)
     funcs = (["c17_api_model", "c17_api_sites_oracle"] if model_ok else []) + ["c17_api_oracle"]
